@@ -244,6 +244,8 @@ class PixCoord:
         cosa, sina = np.cos(angle), np.sin(angle)
         rotation_matrix = np.array([[cosa, -sina], [sina, cosa]])
 
-        vec = np.matmul(rotation_matrix, vec)
+        # contract the matrix with the leading (x, y) axis only, so that
+        # coordinate arrays of any dimension are rotated element-wise
+        vec = np.tensordot(rotation_matrix, vec, axes=1)
 
         return self.__class__(center.x + vec[0], center.y + vec[1])
